@@ -1,5 +1,5 @@
 """C05 - cut commits the clause and nothing else."""
-from lib import semcheck, progs, progs_shapes
+from lib import semcheck, progs, progs_shapes, progs_r4
 from lib.semcheck import impl, model_expr, compare, oracle, describe, shrink, IMPORTS
 
 ID = 'C05'
@@ -21,6 +21,7 @@ TRUSTED_BASE = []
 
 N_LONG = {'quick': 50, 'thorough': 400}
 N_REC = {'quick': 50, 'thorough': 400}
+N_LIMIT = {'quick': 50, 'thorough': 400}
 
 def gen(rng, tier):
     n = 220 if tier == 'quick' else 5000
@@ -43,6 +44,10 @@ def gen(rng, tier):
         cases.append(progs_shapes.gen_long_body_program(rng))
     for _ in range(N_REC[tier]):
         cases.append(progs_shapes.gen_recursive_program(rng))
+    # round 4: bodies AT CPython's limit of 20 statically nested blocks (18, 19, 20) with a cut in a branch of the last control construct,
+    # and just beyond it (21, 22), where the compiler must refuse (the model compiler's verdict is compared: semcheck.compare)
+    for _ in range(N_LIMIT[tier]):
+        cases.append(progs_r4.gen_limit_body_program(rng))
     return cases
 
 def builtin_corpus():
@@ -66,7 +71,7 @@ def oracle(case, io):
     """intrinsic, on the implementation alone: no query variable stays bound (semcheck), and the caller's own alternatives are
     untouched - the generated callers around a predicate with cuts answer exactly their callee's answers inside their own
     generator's solutions, followed by their own last clause (progs_shapes.check_relations)"""
-    return semcheck.oracle(case, io) or progs_shapes.check_relations(case, io)
+    return semcheck.oracle(case, io) or progs_shapes.check_relations(case, io) or progs_r4.check_same_answers(case, io)
 
 def nontrivial(case, io):
     if not isinstance(io, dict) or 'queries' not in io or not any(q['count'] >= 1 for q in io['queries']):
@@ -85,5 +90,10 @@ def distribution(cases, obs):
             key = '1-5' if n <= 5 else '6-12' if n <= 12 else '13-15' if n <= 15 else '16+'
             longest[key] = longest.get(key, 0) + 1
     d['program_shapes'] = shapes
+    est = {}
+    for c in cases:
+        if 'estimated_blocks' in c:
+            est[str(c['estimated_blocks'])] = est.get(str(c['estimated_blocks']), 0) + 1
+    d['limit_body_programs_by_estimated_nested_blocks'] = est
     d['top_level_goals_per_clause_body'] = longest
     return d
